@@ -450,7 +450,7 @@ class SymReal:
             if b.numerator_as_long() == 0:
                 raise ZeroDivisionError("float division by zero")
             return SymReal(z3.simplify(a / b))
-        if core.cur().branch(b == 0):
+        if core.cur().branch(b == 0, refine=True):
             raise ZeroDivisionError("float division by zero")
         if SymReal.exact_mul:
             return SymReal(a / b)
